@@ -518,11 +518,10 @@ fn fixed() -> Vec<(bool, u16, u64, bool, Vec<Op>)> {
     v.push((false, 1200, 25 * ms, false, h));
     // 8: ack-eliciting but not in flight: `time_of_last_ack_eliciting_packet.unwrap()`
     v.push((true, 1200, 25 * ms, false, vec![Op::Grant, Op::Sent { e: 0, pn: 0, elic: true, infl: false, size: 100 }, Op::Sent { e: 0, pn: 1, elic: false, infl: true, size: 100 }, Op::Tick(200 * ms)]));
-    // 9: a client that is not yet sure of address validation keeps its backoff across an Initial ACK
-    v.push((false, 1200, 25 * ms, true, vec![Op::Grant, Op::Sent { e: 0, pn: 0, elic: true, infl: true, size: 1200 }, Op::Tick(99 * ms),
-        Op::Sent { e: 0, pn: 1, elic: true, infl: true, size: 1200 }, Op::Tick(198 * ms), Op::Sent { e: 0, pn: 2, elic: true, infl: true, size: 1200 },
-        Op::Tick(20 * ms), Op::Ack { e: 0, ranges: vec![(2, 2)], ce: None, delay: 0 }, Op::Tick(400 * ms), Op::HsAck,
-        Op::Sent { e: 0, pn: 3, elic: true, infl: true, size: 1200 }, Op::Tick(20 * ms), Op::Ack { e: 0, ranges: vec![(3, 3)], ce: None, delay: 0 }]));
+    // 9: a client that is not yet sure of address validation keeps its backoff across an Initial ACK (seeded c13-2)
+    v.push((false, 1200, 25 * ms, true, vec![Op::Grant, Op::Sent { e: 0, pn: 0, elic: true, infl: true, size: 1200 }, Op::Tick(40 * ms), Op::Tick(112 * ms),
+        Op::Sent { e: 0, pn: 1, elic: true, infl: true, size: 1200 }, Op::Tick(20 * ms), Op::Ack { e: 0, ranges: vec![(1, 1)], ce: None, delay: 0 },
+        Op::Tick(400 * ms), Op::HsAck, Op::Sent { e: 0, pn: 2, elic: true, infl: true, size: 1200 }, Op::Tick(20 * ms), Op::Ack { e: 0, ranges: vec![(2, 2)], ce: None, delay: 0 }]));
     v
 }
 
